@@ -329,3 +329,40 @@ __CPROVER_assigns(S(s)->needsScaling, V(((void **)S(s)->vs->d)[i])->in.n, V(((vo
 void h_ctor_body1(void) { void *s; unsigned i; w_ctor_body1(s, i); VERIF_CANARY; }
 #endif
 
+
+/* ============================================================ IncSolver::satisfy: the merge/split loop body flags only on evidence */
+#if defined(JOB_flag_on_evidence)
+/* One iteration of the main loop of IncSolver::satisfy for the chosen constraint v, every callee behind a contract over
+ * ghost cells.  A constraint may be relaxed (flagged unsatisfiable) only where the solver has found a reason:
+ *   - an active directed path right -> left inside the block (a cycle of tight constraints), or
+ *   - splitBetween finding no constraint to split on / reporting unsatisfiability.
+ * "Flagged only if infeasible" rests on this (plus the callees being right, which is NOT proved: residue). */
+/* plain harness (the dfcc version with six replaced callees did not finish in 300 s): the callees' shims are defined here
+ * and return ghost values chosen nondeterministically by the harness */
+_Bool verif_cycle, verif_split_threw; void *verif_split_result;
+double nondet_double(void);
+_Bool w_isActivePath(void *blk, void *u, void *v) { return verif_cycle; }
+void *w_splitBetween(void *blk, void *vl, void *vr, void **lb, void **rb) { return verif_split_result; }
+void *w_block_merge(void *blk, void *other, void *c) { return blk; }
+void w_blocks_insert(void *bs, void *b) { }
+void w_delete_block(void *b) { }
+double w_slack(void *c) { return nondet_double(); }
+double w_position(void *v) { return nondet_double(); }
+double w_unscaledPosition(void *v) { return nondet_double(); }
+void w_merge_body(void *s, void *v);
+void h_merge_body(void)
+{
+    struct IncSolver sol; struct Constraint v, sc; struct Variable l, r; struct Block bl, br; void *slots[8]; _Bool has_split, same_block;
+    v.left = &l; v.right = &r; l.block = &bl; r.block = same_block ? &bl : &br;
+    sol.inactive.d = slots; sol.inactive.cap = 8; __CPROVER_assume(sol.inactive.n <= 4);
+    __CPROVER_assume(!v.active && !sc.active);                      /* only inactive constraints are handed to the loop body */
+    verif_split_result = has_split ? (void *)&sc : (void *)0;
+    struct Constraint v0 = v;
+    w_merge_body(&sol, &v);
+    __CPROVER_assert(!v.unsatisfiable || v0.unsatisfiable || (same_block && (verif_cycle || !has_split || verif_split_threw)),
+                     "SPEC IncSolver::satisfy relaxes (flags) a constraint only on evidence: an active directed path right->left in its block, or splitBetween finding nothing to split / reporting unsatisfiability");
+    __CPROVER_assert(FEQ(v.gap, v0.gap) && v.left == v0.left && v.right == v0.right && v.equality == v0.equality,
+                     "SPEC IncSolver::satisfy's loop body leaves the constraint's definition alone");
+    VERIF_CANARY;
+}
+#endif
